@@ -75,8 +75,14 @@ def observe(inst):
     vm = [ac.tup_py(v) for v in p.var_mapping]
     tups = [p.get_var_tuple_index(k) for k in range(n + 3)]
     tups = [None if v is None else ac.tup_py(v) for v in tups]
+    fresh = None
+    if not inst.get("rebuild"):
+        # the index-to-tuple lookup as the very FIRST call on a fresh object of the same instance
+        p2 = ac.build(inst)
+        fresh = [p2.get_var_tuple_index(k) for k in range(2)]
+        fresh = [None if v is None else ac.tup_py(v) for v in fresh]
     return {"snap": snap, "n": int(n), "vars": vm, "times": times, "space": space, "idx": idx, "tups": tups,
-            "grid": grid, "stale": stale}
+            "grid": grid, "stale": stale, "tups_fresh": fresh}
 
 
 def oracle(inst, obs=None):
@@ -117,6 +123,9 @@ def oracle(inst, obs=None):
     for k in range(n, n + 3):
         if obs["tups"][k] is not None:
             return f"index {k} >= n = {n} maps to {obs['tups'][k]}"
+    if obs.get("tups_fresh") is not None and obs["tups_fresh"] != obs["tups"][:2]:
+        return (f"get_var_tuple_index as the first call on a fresh object returns {obs['tups_fresh']} for indices 0, 1; "
+                f"after a size query it returns {obs['tups'][:2]}")
     return None
 
 
@@ -154,6 +163,8 @@ def run_part(ctx):
     insts = special_instances()
     for k in range(n_random):
         inst = ac.gen_instance(rng)
+        if k % 6 == 5:        # far from the clock origin (times around 2^21 .. 2^24, differences of one unit)
+            inst = ac.shift_instance(inst, 1 << rng.choice([21, 22, 24]))
         inst["lookup_first"] = (k % 2 == 0)
         insts.append(inst)
     # RE-ENUMERATION stream: enumerate, change the problem through the public API, rebuild
